@@ -84,6 +84,19 @@ def renderings(obj, is_list):
     # after the user's head content): charset line, user head content and everything outside <head> must not change
     import re as _re
     outs.append(_re.sub(r"\s*<script type=\"application/html-dependencies\">.*?(?=\s*</head>)", "", ht.HTMLDocument(obj).render()["html"], flags=_re.S))
+    # the same content as a dependency's head= markup: what as_dict() and the JSON serialisation report (in both
+    # dependency render modes) is markup only
+    import htmltools as _h
+    hd = ht.HTMLDependency("view-dep", "1.0", head=(obj if is_list else ht.TagList(obj)))
+    outs.append(repr(hd.as_dict()["head"]))
+    outs.append(hd.serialize_to_script_json().get_html_string())
+    old_mode = _h.html_dependency_render_mode
+    _h.html_dependency_render_mode = "json"
+    try:
+        outs.append(repr(hd.as_dict()["head"]))
+        outs.append(hd.serialize_to_script_json(indent=2).get_html_string())
+    finally:
+        _h.html_dependency_render_mode = old_mode
     if not is_list:
         outs.append(ht.TagList(obj).get_html_string())
         outs.append(ht.TagList("x", obj, "y").get_html_string(1))
